@@ -281,6 +281,10 @@ pub struct Log {
     pub fail_at: Option<Fault>,
     pub failed: bool,
     pub calls_after_fault: u64,
+    /// native fill_contiguous skips the colours of points outside the target's box in bulk with
+    /// `Iterator::nth` (like a driver that sets an address window) instead of pulling them one by
+    /// one, and does not drain the rest of the stream
+    pub skip_invisible_with_nth: bool,
     /// items (pixels/colours) consumed so far and the step budget
     pub items: u64,
     pub budget: u64,
@@ -294,6 +298,7 @@ impl Log {
             map: PixMap::new(),
             touched: FastSet::default(),
             track_touched: false,
+            skip_invisible_with_nth: false,
             out_of_box: 0,
             events: Vec::new(),
             keep_pixels: false,
@@ -389,6 +394,38 @@ impl Log {
         let mut h = mix(mix(a.0 as u32 as u64, a.1 as u32 as u64), mix(a.2 as u64, a.3 as u64));
         let mut cols = Vec::new();
         let mut ended = false;
+        if self.skip_invisible_with_nth {
+            let b = rt(&self.bbox);
+            let mut pending = 0usize;
+            'rows: for yy in 0..a.3 as i64 {
+                for xx in 0..a.2 as i64 {
+                    let (x, y) = (a.0 as i64 + xx, a.1 as i64 + yy);
+                    let inside = x >= b.0 as i64 && y >= b.1 as i64 && x < b.0 as i64 + b.2 as i64 && y < b.1 as i64 + b.3 as i64;
+                    if !inside {
+                        pending += 1;
+                        continue;
+                    }
+                    if self.items >= self.budget {
+                        self.over_budget = true;
+                        break 'rows;
+                    }
+                    let got = if pending > 0 { it.nth(pending) } else { it.next() };
+                    self.items += pending as u64 + 1;
+                    pending = 0;
+                    match got {
+                        None => break 'rows,
+                        Some(c) => {
+                            n += 1;
+                            let c = c.to_u32();
+                            h = mix(h, c as u64);
+                            self.put(x as i32, y as i32, c);
+                        }
+                    }
+                }
+            }
+            self.push_event(Kind::FillContiguous, Some(a), n, h, Vec::new(), cols);
+            return Ok(());
+        }
         // documented meaning: colours are assigned to the points of `area` in row-major order;
         // points outside the target are skipped but still consume a colour; a short stream leaves
         // the rest untouched.
